@@ -64,7 +64,9 @@ let c08_arr toks =
   let (n, toks) = c08_int toks in
   let (_, toks) = c08_take n toks in
   let (sl, toks) = c08_int toks in
-  let (_, toks) = if sl = 1 then c08_take (3 * r) toks else ([], toks) in
+  let (_, toks) = if sl = 1 then c08_take (3 * r) toks
+    else if sl = 2 then (let (m, toks) = c08_int toks in c08_take m toks)
+    else ([], toks) in
   let (lr, toks) = c08_int toks in
   let (ldims, toks) = c08_ints lr toks in
   let (ln, toks) = c08_int toks in
